@@ -446,6 +446,98 @@ def rule_R18(body: str, log, where):
     return body
 
 
+def _split_arm_body(mask, k):
+    """k = offset just after `=>`; returns (body_start, body_end_exclusive, next_offset) of an arm body (block or expr up to `,`)"""
+    n = len(mask)
+    while k < n and mask[k] in " \n\t":
+        k += 1
+    if mask[k] == "{":
+        e = match_brace(mask, k) + 1
+        nx = e
+        while nx < n and mask[nx] in " \n\t":
+            nx += 1
+        if nx < n and mask[nx] == ",":
+            nx += 1
+        return k, e, nx
+    depth, e = 0, k
+    while e < n:
+        ch = mask[e]
+        if ch in "([{":
+            depth += 1
+        elif ch in ")]}":
+            if depth == 0:
+                break
+            depth -= 1
+        elif ch == "," and depth == 0:
+            break
+        e += 1
+    nx = e + 1 if e < n and mask[e] == "," else e
+    return k, e, nx
+
+
+def rule_R19(body: str, log, where):
+    """`match X { P if G => A, _ => B }`  ->  `if let P = X { if G { A } else { B } } else { B }`  (exactly these two arms; Verus rejects
+    a guard together with a by-reference binding). Only one of the copies of B runs, exactly when the original ran B."""
+    for _ in range(8):
+        mask = mask_rust(body)
+        done = True
+        for m in re.finditer(r"\bmatch\b", mask):
+            # scrutinee up to the `{` at depth 0
+            k, depth = m.end(), 0
+            while k < len(mask):
+                ch = mask[k]
+                if ch in "([":
+                    depth += 1
+                elif ch in ")]":
+                    depth -= 1
+                elif ch == "{" and depth == 0:
+                    break
+                k += 1
+            if k >= len(mask):
+                continue
+            open_b, close_b = k, match_brace(mask, k)
+            inner0 = open_b + 1
+            # first arm: PATTERN if GUARD =>
+            a = inner0
+            depth, arrow, ifpos = 0, None, None
+            j = a
+            while j < close_b:
+                ch = mask[j]
+                if ch in "([{":
+                    depth += 1
+                elif ch in ")]}":
+                    depth -= 1
+                elif depth == 0 and mask.startswith("=>", j):
+                    arrow = j
+                    break
+                elif depth == 0 and ifpos is None and re.match(r"\bif\b", mask[j:j + 3]) and (j == 0 or not (mask[j - 1].isalnum() or mask[j - 1] == "_")):
+                    ifpos = j
+                j += 1
+            if arrow is None or ifpos is None:
+                continue
+            pat = body[a:ifpos].strip()
+            guard = body[ifpos + 2:arrow].strip()
+            b1s, b1e, nx = _split_arm_body(mask, arrow + 2)
+            # second (last) arm must be `_ =>`
+            m2 = re.match(r"\s*_\s*=>", mask[nx:close_b])
+            if not m2:
+                continue
+            b2s, b2e, nx2 = _split_arm_body(mask, nx + m2.end())
+            if mask[nx2:close_b].strip():
+                continue            # more arms: not this shape
+            scrut = body[m.end():open_b].strip()
+            A, B = body[b1s:b1e], body[b2s:b2e]
+            blk = lambda t: t if t.lstrip().startswith("{") else "{ " + t + " }"
+            new = f"if let {pat} = {scrut} {{ if {guard} {blk(A)} else {blk(B)} }} else {blk(B)}"
+            body = body[:m.start()] + new + body[close_b + 1:]
+            log.append({"rule": "R19", "where": where, "before": f"match {scrut} {{ {pat} if {guard} => .., _ => .. }}", "after": "if let .. { if guard { A } else { B } } else { B }"})
+            done = False
+            break
+        if done:
+            break
+    return body
+
+
 def apply_rewrite(body, rule, frm, to, allocc, log, where):
     """exact-text rewrite. A missing anchor is NOT fatal: the rule is skipped and logged (`missed`), the real text
     goes to Verus unrewritten and either verifies, fails (violation) or is rejected by the front end (undecided).
@@ -1081,6 +1173,8 @@ def generate(unit, template_path, canary=False, extra_fns=()):
                 newsig += " " + wh.replace("\n", " ")
             # --- body rewrites
             body = rule_R4(body, g.rewrites, where)
+            if re.search(r"\bmatch\b", mask_rust(body)) and re.search(r"\bif\b[^{};]*=>", mask_rust(body)):
+                body = rule_R19(body, g.rewrites, where)
             if re.search(r"\(\s*ref\s+\w+\s*\)\s*=", mask_rust(body)):
                 body = rule_R18(body, g.rewrites, where)
             if re.search(r"\b(?:Some|Ok|Err)\(\s*&\s*\w+\s*\)\s*=>", mask_rust(body)):
